@@ -1077,6 +1077,7 @@ def cases(tier):
                 cs.append(periodic_case(M_, outs_, "fixed_static", has_f=False))
     # ---- integro -----------------------------------------------------------------------------
     cs.append(integro_case(XT, TX, U, "fixed"))
+    cs.append(integro_case(XT, TX, U, "fixed", nint=1))
     cs.append(integro_case(TX, XT, U, "fixed_static"))
     cs.append(integro_case(TX, XT, UV, "fixed"))
     if th:
